@@ -664,8 +664,7 @@ func (m *Machine) captureUniqueness(re *Regex, s *Term) {
 	for n, c1 := range d1.Captures {
 		diff = append(diff, Not(Eq(c1, d2.Captures[n])))
 	}
-	q := append(append([]*Term(nil), m.pc...), d1.Constraint, d2.Constraint, Or(diff...))
-	if r := m.Solver.Check(q); r != Unsat {
+	if r := m.Solver.CheckPC(m.pc, []*Term{d1.Constraint, d2.Constraint, Or(diff...)}); r != Unsat {
 		unsupported("AMBIGUOUS-CAPTURE: %q has more than one parse for some subject on this path (%v)", re.Pattern, r)
 	}
 }
